@@ -20,6 +20,10 @@ func day(i int) time.Time { return time.Date(2021, 3, 1+i, 0, 0, 0, 0, time.UTC)
 
 // snap builds a snapshot with awkward but finite float values.
 func snap(d int, variant int) *asset.Snapshot {
+	if variant == 3 {
+		// every number at its widest decimal rendering (24 characters): a stored row of more than 128 bytes
+		return &asset.Snapshot{Date: day(d), Open: -1.7976931348623157e+308, High: 1.7976931348623157e+308, Low: -2.2250738585072014e-308, Close: -1.2345678901234567e-123 * float64(d+1), Volume: 1.2345678901234567e+123}
+	}
 	b := float64(d*10 + variant)
 	return &asset.Snapshot{Date: day(d), Open: b + 0.1, High: b + 1.0/3, Low: b - 1e-9, Close: b + 0.5, Volume: 1e21 + b}
 }
@@ -399,7 +403,7 @@ func repoUnit(c *core.Ctx, k repoKind, init string, depth int) {
 					if monotone && len(b) > 0 && b[0] < s.last[name] {
 						continue // dates are monotone per asset (equal dates allowed)
 					}
-					op := repoOp{Name: name, Batch: b, Var: (len(s.h) + bi) % 3}
+					op := repoOp{Name: name, Batch: b, Var: (len(s.h) + bi) % 4}
 					h2 := append(append([]repoOp{}, s.h...), op)
 					state, viol, key := replayRepo(k, init, h2)
 					c.Transitions++
